@@ -160,3 +160,110 @@ Theorem eq_trans p a b c :
 Proof.
   intros Wa Wb Wc Xa Xb Xc. rewrite !eq_iff by assumption. apply Qeq_trans.
 Qed.
+
+(* ------------------------------------------------ the variadic fold, num_comp *)
+Fixpoint adj_conj (f : num -> num -> bool) (l : list num) : bool :=
+  match l with
+  | x :: ((y :: _) as t) => f x y && adj_conj f t
+  | _ => true
+  end.
+
+Lemma adj_conj_snoc f l x z : adj_conj f ((l ++ [x]) ++ [z]) = adj_conj f (l ++ [x]) && f x z.
+Proof.
+  induction l as [|a l IH]; cbn [app].
+  - cbn. now rewrite andb_true_r.
+  - destruct l as [|b l]; cbn [app] in *.
+    + cbn. now rewrite !andb_true_r.
+    + change (f a b && adj_conj f (b :: (l ++ [x]) ++ [z]) = f a b && adj_conj f (b :: l ++ [x]) && f x z).
+      rewrite IH. now rewrite andb_assoc.
+Qed.
+
+Section Variadic.
+Variables (o : cmpop) (p : profile) (f : num -> num -> bool) (P : num -> Prop).
+Hypothesis Hf : forall x y, P x -> P y -> apply_cmp o p x y = Ok (f x y).
+
+Lemma loop_false rest y : P y -> Forall P rest ->
+  num_comp_loop o p (map ANum rest) y false = Ok false.
+Proof.
+  intros Py H. revert y Py. induction H as [|x r Px Hr IH]; intros y Py; cbn [map num_comp_loop]; [reflexivity|].
+  rewrite Hf by assumption. cbn [bind]. destruct (f x y); now apply IH.
+Qed.
+
+Lemma loop_true l : forall z, P z -> Forall P l ->
+  num_comp_loop o p (rev (map ANum l)) z true = Ok (adj_conj f (l ++ [z])).
+Proof.
+  induction l as [|x l IH] using rev_ind; intros z Pz Hl.
+  - reflexivity.
+  - apply Forall_app in Hl. destruct Hl as [Hl Hx]. inversion Hx as [|? ? Px _]; subst.
+    rewrite map_app, rev_app_distr. cbn [map rev app num_comp_loop].
+    rewrite Hf by assumption. cbn [bind]. rewrite adj_conj_snoc.
+    destruct (f x z).
+    + rewrite IH by assumption. now rewrite andb_true_r.
+    + rewrite andb_false_r. rewrite <- map_rev. apply loop_false; [exact Pz|]. now apply Forall_rev.
+Qed.
+
+(* (op x1 ... xn) on numbers = the conjunction of op over adjacent pairs *)
+Theorem num_comp_adjacent l : l <> [] -> Forall P l ->
+  b_num_comp o p (map ANum l) = Ok (RBool (adj_conj f l)).
+Proof.
+  intros Hne Hl. destruct (exists_last Hne) as [l' [z E]]. subst l.
+  apply Forall_app in Hl. destruct Hl as [Hl Hz]. inversion Hz as [|? ? Pz _]; subst.
+  unfold b_num_comp. rewrite map_app, rev_app_distr. cbn [map rev app].
+  rewrite loop_true by assumption. reflexivity.
+Qed.
+End Variadic.
+
+(* a non-number among the arguments: #f, not an error (kept, not claimed by C09) *)
+
+(* instance: exact well-formed numbers, each comparison decided by the values *)
+Definition exact_wf (x : num) : Prop := wfb x = true /\ is_exact x = true.
+Definition cmp_spec (o : cmpop) (x y : num) : bool :=
+  let c := (qv x ?= qv y)%Q in
+  match o with
+  | CEq => is_Eq c
+  | CLt => match c with Lt => true | _ => false end
+  | CGt => match c with Gt => true | _ => false end
+  | CLe => match c with Gt => false | _ => true end
+  | CGe => match c with Lt => false | _ => true end
+  end.
+
+Lemma apply_cmp_exact o p x y : exact_wf x -> exact_wf y -> apply_cmp o p x y = Ok (cmp_spec o x y).
+Proof.
+  intros [Wx Xx] [Wy Xy]. destruct o; cbn [apply_cmp cmp_spec].
+  - now apply eq_exact. - now apply lt_exact. - now apply gt_exact. - now apply le_exact. - now apply ge_exact.
+Qed.
+
+Theorem variadic_exact o p l : l <> [] -> Forall exact_wf l ->
+  b_num_comp o p (map ANum l) = Ok (RBool (adj_conj (cmp_spec o) l)).
+Proof. intros. apply num_comp_adjacent with (P := exact_wf); auto. intros. now apply apply_cmp_exact. Qed.
+
+(* ------------------------------------------- zero? positive? negative?, min / max *)
+Lemma qv_zero : qv (Fixnum 0) = 0%Q. Proof. reflexivity. Qed.
+
+Theorem sign_predicates p x : exact_wf x ->
+  b_upred PZero p [ANum x] = Ok (RBool (is_Eq (qv x ?= 0)%Q)) /\
+  b_upred PPositive p [ANum x] = Ok (RBool (match (qv x ?= 0)%Q with Gt => true | _ => false end)) /\
+  b_upred PNegative p [ANum x] = Ok (RBool (match (qv x ?= 0)%Q with Lt => true | _ => false end)).
+Proof.
+  intros [W X]. cbn [b_upred].
+  rewrite eq_exact, gt_exact, lt_exact by (auto; reflexivity). repeat split.
+Qed.
+
+(* min / max of two numbers is one of them and is below / above both *)
+Theorem minmax_exact p (is_max : bool) a b : exact_wf a -> exact_wf b ->
+  exists m, b_minmax is_max p [ANum a; ANum b] = Ok (RNum m) /\ (m = a \/ m = b) /\
+    if is_max then (qv a <= qv m /\ qv b <= qv m)%Q else (qv m <= qv a /\ qv m <= qv b)%Q.
+Proof.
+  intros [Wa Xa] [Wb Xb]. unfold b_minmax. cbn [rev app pop_number bind minmax_loop].
+  destruct is_max.
+  - rewrite gt_exact by assumption. cbn [bind].
+    destruct (qv a ?= qv b)%Q eqn:C; eexists; (split; [reflexivity|]); (split; [auto|]).
+    + apply Qeq_alt in C. rewrite C. split; apply Qle_refl.
+    + apply Qlt_alt in C. split; [now apply Qlt_le_weak|apply Qle_refl].
+    + apply Qgt_alt in C. split; [apply Qle_refl|now apply Qlt_le_weak].
+  - rewrite lt_exact by assumption. cbn [bind].
+    destruct (qv a ?= qv b)%Q eqn:C; eexists; (split; [reflexivity|]); (split; [auto|]).
+    + apply Qeq_alt in C. rewrite C. split; apply Qle_refl.
+    + apply Qlt_alt in C. split; [apply Qle_refl|now apply Qlt_le_weak].
+    + apply Qgt_alt in C. split; [now apply Qlt_le_weak|apply Qle_refl].
+Qed.
